@@ -2,7 +2,10 @@
 (***************************************************************************)
 (* The PROPERTIES, one named clause per sentence of /verif/properties.jsonl *)
 (* that speaks about sequential, fault-free use of the API (C01 C03 C04    *)
-(* C05 C06 C11 C17 C19).  Clauses are predicates over                      *)
+(* C05 C06 C11 C17 C18; C19 is in Converge.tla; the clauses about          *)
+(* schedules, crashes and faults live with their judges TraceLin and       *)
+(* TraceFault; the input tables in Algorithms / Config / Layout / Client). *)
+(* Clauses are predicates over                                             *)
 (*      (pre-state, call, result, post-state, ghost before, ghost after)   *)
 (* and never mention Apply.  The ghost is what the history of calls and    *)
 (* their RESULTS implies, advanced by ideal rules that do not look at the  *)
